@@ -492,11 +492,42 @@ def engine_rules(chk):
     ])
 
 
+def _under_shutdown_recv(F, c, o_sr):
+    """the call is reachable only through the non-zero side of a branch on (some engine)->shutdown_recv"""
+    cb = F.block_of[c['id']]
+    for b in F.blocks:
+        t = b['insts'][-1]
+        if t['op'] != 'br' or len(t['ops']) != 3 or t['ops'][0]['k'] != 'i':
+            continue
+        x = F.insts[t['ops'][0]['v']]
+        neg = False
+        while x['op'] == 'xor' and any(q['k'] == 'c' for q in x['ops']):
+            neg = not neg
+            x = F.insts[next(q for q in x['ops'] if q['k'] == 'i')['v']]
+        if x['op'] != 'icmp' or x['pred'] not in ('eq', 'ne') or not (x['ops'][1]['k'] == 'c' and x['ops'][1]['v'] == 0):
+            continue
+        v = F.strip_casts(x['ops'][0])
+        while v['k'] == 'i' and F.insts[v['v']]['op'] in ('zext', 'sext', 'trunc'):
+            v = F.insts[v['v']]['ops'][0]
+        if v['k'] != 'i' or F.insts[v['v']]['op'] != 'load':
+            continue
+        _, off = F.addr_of(F.insts[v['v']]['ops'][0])
+        if off != o_sr:
+            continue
+        nz_is_true = (x['pred'] == 'ne') != neg
+        dest = t['ops'][2]['v'] if nz_is_true else t['ops'][1]['v']      # operand order: cond, false, true
+        if len(F.pred[dest]) == 1 and F.dominates_block(dest, cb):
+            return True
+    return False
+
+
 def fail_call_sites(chk):
-    """every C call of br_ssl_engine_fail passes a provably non-zero error code"""
+    """every C call of br_ssl_engine_fail passes a provably non-zero error code; the one exception is the orderly end of the closure
+    sequence in the I/O wrapper: our close_notify cannot be written any more but the peer's was received (RFC 5246 7.2.1)"""
     from .. import wmw
     R = 'engine-fail-call-sites'
     P = wmw.program()
+    o_sr = irf.Layouts(build.load_unit('src/ssl/ssl_engine.c')).field('br_ssl_engine_context', 'shutdown_recv')[0]
     n = 0
     for (un, fn), F in sorted(P.static.items()):
         for c in F.calls('br_ssl_engine_fail'):
@@ -507,6 +538,8 @@ def fail_call_sites(chk):
             if a['k'] == 'c':
                 if a['v'] != 0:
                     chk.ok(R, inst + ' [constant %d]' % a['v'], where)
+                elif _under_shutdown_recv(F, c, o_sr):
+                    chk.ok(R, inst.replace('is non-zero', 'is zero only after the peer\'s close_notify (shutdown_recv != 0): orderly closure'), where)
                 else:
                     chk.violation(R, inst, where, 'the engine is failed with error code 0 (reported as orderly closure)', key='%s %s const0 line-independent' % (R, fn))
                 continue
@@ -538,15 +571,17 @@ def fail_call_sites(chk):
 
 def io_rules(chk):
     s = 'src/ssl/ssl_io.c'
-    cv = build.const_values(['BR_ERR_IO', 'BR_SSL_CLOSED'])
+    cv = build.const_values(['BR_ERR_IO', 'BR_ERR_OK', 'BR_SSL_CLOSED'])
     R = 'io-wrapper-errors'
     failio = CALLDOM('br_ssl_engine_fail', 1, lambda v: v == cv['BR_ERR_IO'], 'br_ssl_engine_fail(BR_ERR_IO) on every path from the site')
+    failany = CALLDOM('br_ssl_engine_fail', 1, lambda v: v in (cv['BR_ERR_IO'], cv['BR_ERR_OK']), 'br_ssl_engine_fail(BR_ERR_IO or BR_ERR_OK) on every path from the site')
     rd = r'^i32 \(i8\*, i8\*, i64\)'
     obs = [
         Ob(s, 'run_until', ICall('low_read', ftype=rd, pred=lambda F, i: F.addr_of(F.insts[F.strip_casts(i['cv'])['v']]['ops'][0])[1] == 8 if F.strip_casts(i['cv'])['k'] == 'i' else False),
            ('pin', -1), ALL(RET(-1), failio), ('pin', 5), 'transport read error', rule=R),
         Ob(s, 'run_until', ICall('low_write', ftype=rd, pred=lambda F, i: F.addr_of(F.insts[F.strip_casts(i['cv'])['v']]['ops'][0])[1] == 24 if F.strip_casts(i['cv'])['k'] == 'i' else False),
-           ('pin', -1), RET(-1), ('pin', 5), 'transport write error', rule=R),
+           ('pin', -1), ALL(RET(-1), failany), ('pin', 5), 'transport write error: the engine is always closed (BR_ERR_IO, or orderly when the peer\'s close_notify '
+           'was already received) - br_sslio_close() loops until it is', rule=R),
         Ob(s, 'run_until', Call('br_ssl_engine_current_state'), ('pin', cv['BR_SSL_CLOSED']), RET(-1), None, 'closed engine', rule=R),
     ]
     for fn in ('br_sslio_read', 'br_sslio_write'):
